@@ -30,14 +30,15 @@ from pathlib import Path
 from harness import unsatcache_replay as uc
 from harness.common import VERIF, Check, MachineryError, cleanup, run_tlc, workdir
 
-BUDGET = {"quick": 13, "thorough": 334}  # contracts; 3 tests each (+ the control runs)
+BUDGET = {"quick": 10, "thorough": 250}  # contracts; 3 tests each (+ the control runs)
 
 MC = {
     "quick": [("MC_UnsatCache_pin_q.cfg", False), ("MC_UnsatCache_futures_q.cfg", False),
               ("MC_UnsatCache_termvars_q.cfg", False), ("MC_UnsatCache_nopin_q.cfg", True)],
     "thorough": [("MC_UnsatCache_pin.cfg", False), ("MC_UnsatCache_futures.cfg", False),
                  ("MC_UnsatCache_termvars.cfg", False), ("MC_UnsatCache_nopin.cfg", True),
-                 ("MC_UnsatCache_pin4.cfg", False), ("MC_UnsatCache_futures4.cfg", False)],
+                 ("MC_UnsatCache_pin4.cfg", False), ("MC_UnsatCache_futures4.cfg", False),
+                 ("MC_UnsatCache_futures_f2.cfg", False)],
 }
 
 CLIS = [
@@ -56,12 +57,16 @@ PIN_CLAUSES = {"pinned-id-rebound", "pinned-object-duplicated"}
 
 
 def mk_cases(seed: int, n: int, tier: str) -> list:
+    """yices with one solver thread is the cheap default (and gives deterministic cache hits); z3 as the external
+    solver (~1 s per query) and the multiplication atoms (refinement; seconds per query) are rationed."""
     cases = []
     for i in range(n):
         depth = (3, 4) if tier == "quick" else ((3, 5) if i % 4 else (4, 6))
-        hard = 0.0 if i % 5 else 0.06
-        cases.append(uc.UcCase(seed=seed, index=i, ntests=3, depth=depth, hard=hard, cli=CLIS[i % len(CLIS)],
-                               inject=INJECT[i % len(INJECT)]))
+        hard = 0.05 if (tier == "thorough" and i % 8 == 5) else 0.0
+        cli = CLIS[i % len(CLIS)]
+        if "z3" in cli and not (tier == "thorough" and i % 10 == 1):
+            cli = ("--solver-threads", "1")
+        cases.append(uc.UcCase(seed=seed, index=i, ntests=3, depth=depth, hard=hard, cli=cli, inject=INJECT[i % len(INJECT)]))
     return cases
 
 
@@ -96,8 +101,8 @@ class Background:
 
 def model_check(chk: Check, tier: str, work: Path, bg: Background):
     for cfg, expect in MC[tier]:
-        bg.start(cfg, run_tlc, "UnsatCache", cfg, work=work, workers=4 if tier == "quick" else 8, coverage=True,
-                 expect_violation=expect, heap="6g")
+        bg.start(cfg, run_tlc, "UnsatCache", cfg, work=work, workers=3 if tier == "quick" else 4, coverage=(tier == "thorough"),
+                 expect_violation=expect, heap="3g")
 
 
 def model_check_verdicts(chk: Check, tier: str, bg: Background):
@@ -119,32 +124,30 @@ def model_check_verdicts(chk: Check, tier: str, bg: Background):
                     "DoSolverNoCore", "DoSolverUnsat"}
             if "futures" in cfg:
                 need |= {"NewRecycled", "Reclaim"}
-            for a in need:
+            for a in need if tier == "thorough" else ():
                 if r.coverage.get(a, (0, 0))[1] == 0:
                     uncovered.add(f"{cfg}:{a}")
         chk.cov.setdefault("tlc", {})[cfg] = {"distinct": r.distinct_states, "generated": r.states_generated, "depth": r.depth,
                                                "violated": r.violated, "wall_s": round(r.wall_s, 1)}
-    chk.cov["spec_actions_never_taken"] = sorted(uncovered)
+    chk.cov["spec_actions_never_taken"] = sorted(uncovered) if tier == "thorough" else "coverage is collected in the thorough tier"
     if uncovered and tier == "thorough":
         raise MachineryError(f"actions never taken: {sorted(uncovered)}")
 
 
-def baseline_subprocess(cases, work: Path) -> list:
-    fin, fout = work / "baseline-in.json", work / "baseline-out.json"
-    fin.write_text(json.dumps([{"seed": c.seed, "index": c.index, "ntests": c.ntests, "depth": list(c.depth), "hard": c.hard,
-                                "cli": list(c.cli), "inject": c.inject} for c in cases]))
+def _subprocess(kind: str, cases, work: Path, tag: str) -> list:
+    fin, fout = work / f"{tag}-in.json", work / f"{tag}-out.json"
+    fin.write_text(uc.unsatcache_cases_json(cases))
     env = dict(os.environ, PYTHONHASHSEED="0")
-    p = subprocess.run([sys.executable, "-m", "harness.unsatcache_replay", "baseline", str(fin), str(fout), str(work / "bdump")],
-                       cwd=str(VERIF), env=env, capture_output=True, text=True, timeout=7200)
+    p = subprocess.run([sys.executable, "-m", "harness.unsatcache_replay", kind, str(fin), str(fout), str(work / f"{tag}-work")],
+                       cwd=str(VERIF), env=env, capture_output=True, text=True, timeout=3 * 3600)
     if p.returncode != 0 or not fout.exists():
-        raise MachineryError(f"baseline process failed rc={p.returncode}: {p.stderr[-1500:]}")
+        raise MachineryError(f"{kind} process {tag} failed rc={p.returncode}: {p.stderr[-2000:]}")
     return json.loads(fout.read_text())
 
 
 def replay_of(case, sig=None, extra=None) -> dict:
     c, metas = case.contract()
-    d = {"generator": "harness.unsatcache_replay.UcCase", "case": {"seed": case.seed, "index": case.index, "ntests": case.ntests,
-         "depth": list(case.depth), "hard": case.hard, "cli": list(case.cli), "inject": case.inject},
+    d = {"generator": "harness.unsatcache_replay.UcCase", "case": json.loads(uc.unsatcache_cases_json([case]))[0],
          "runtime": c.runtime().hex(), "creation": c.creation().hex(), "tests": {m.sig: m.tree for m in metas}}
     if sig:
         d["sig"] = sig
@@ -153,7 +156,7 @@ def replay_of(case, sig=None, extra=None) -> dict:
     return d
 
 
-def report_diffs(chk: Check, case, diffs, how: str, off, on, rec_on, work: Path) -> int:
+def report_diffs(chk: Check, case, diffs, how: str, off, on) -> int:
     real = 0
     for sig, kind, what in diffs:
         if kind == "inconclusive":
@@ -161,8 +164,36 @@ def report_diffs(chk: Check, case, diffs, how: str, off, on, rec_on, work: Path)
             continue
         real += 1
         chk.violation(f"{case.key()}:{sig}:{kind}", f"cache off ({how}) vs --cache-solver: {sig}: {what}",
-                      replay_of(case, sig, {"cache_off": off["tests"].get(sig), "cache_on": on["tests"].get(sig), "compared_with": how}))
+                      replay_of(case, sig, {"cache_off": (off or {}).get("tests", {}).get(sig), "cache_on": on["tests"].get(sig),
+                                            "compared_with": how}))
     return real
+
+
+def absorb(chk: Check, case, res: dict, batch) -> int:
+    """Book one paired case (computed here or in a shard process); returns the trace id in the batch."""
+    report_diffs(chk, case, res["diffs"], "same process", res["s_off"], res["s_on"])
+    m = res["models"]
+    chk.count("counterexamples_compared", m["compared"])
+    chk.count("counterexamples_identical", m["identical"])
+    chk.count("counterexamples_revalidated", m["revalidated"])
+    for sig, pid, values in m["invalid"]:
+        chk.violation(f"{case.key()}:{sig}:model-invalid",
+                      f"{sig} path {pid}: the counterexample reported with --cache-solver does not satisfy the path's query",
+                      replay_of(case, sig, {"path": pid, "model": values}))
+    st = res["stats"]
+    chk.count("tests_run_pairs", case.ntests)
+    chk.count("queries", st["queries"])
+    chk.count("queries_unsat", st["unsat"])
+    chk.count("oracle_unknown", st["oracle_unknown"])
+    chk.count("cache_hits", st["hits"])
+    chk.count("cores_stored", len(st["cores"]))
+    chk.count("gc_collections_forced", st["gc"])
+    chk.count("evaluations", st["queries"])
+    for kind, tno in st["nontrivial"]:
+        chk.nontrivial((kind, res["key"], tno))
+    chk.cov.setdefault("_core_sizes", set()).update(st["cores"])
+    chk.sample(res["sample"])
+    return batch.add_built(res["trace"], {"case": case.index})
 
 
 def run(chk: Check, tier: str):
@@ -174,7 +205,12 @@ def run(chk: Check, tier: str):
         model_check(chk, tier, work, bg)
         cases = mk_cases(chk.seed, BUDGET[tier], tier)
         nfresh = len(cases) if tier == "quick" else min(len(cases), 120)
-        bg.start("baseline", baseline_subprocess, cases[:nfresh], work)
+        nb = 1 if tier == "quick" else 2
+        for k in range(nb):
+            bg.start(f"baseline{k}", _subprocess, "baseline", cases[:nfresh][k::nb], work, f"baseline{k}")
+        nshards = 0 if tier == "quick" else 5
+        for k in range(nshards):
+            bg.start(f"shard{k}", _subprocess, "shard", cases[k::nshards], work, f"shard{k}")
 
         # 4. parse_unsat_core
         shapes = uc.unsatcache_parse_shapes(work / "shapes")
@@ -184,10 +220,9 @@ def run(chk: Check, tier: str):
             chk.violation(f"parse_unsat_core:{b['name']}",
                           f"parse_unsat_core returned {b['got']!r}, the solver named {b['expected']!r}; output: {b['output'][:300]!r}",
                           {"output": b["output"], "expected": b["expected"], "got": b["got"]})
-        # control: a parser that drops the last name must be caught by the same comparison
         import halmos.solve as hsolve
 
-        def broken_parse(out):
+        def broken_parse(out):  # control: a parser that drops the last name must be caught by the same comparison
             r = hsolve.parse_unsat_core(out)
             return r[:-1] if r else r
 
@@ -195,68 +230,57 @@ def run(chk: Check, tier: str):
             raise MachineryError("negative control: a parse_unsat_core that drops a name was not noticed")
         chk.count("negative_controls_rejected")
 
-        # 2./3. paired runs
+        # 2./3. paired runs (quick: in this process; thorough: five processes, each runs its contracts in sequence)
         t_pairs = time.time()
         batch = uc.UnsatcacheBatch()
-        on_summaries = []
-        shapes_seen = set()
-        for case in cases:
-            rec_off, out_off, metas = uc.unsatcache_run(case, cache=False, dump=work / "dump")
-            rec_on, out_on, _ = uc.unsatcache_run(case, cache=True, dump=work / "dump", reserialize=(case.index % 7 == 3))
-            uc.unsatcache_oracle(rec_on, work / "oracle", f"c{case.index}", pool)
-            s_off, s_on = uc.unsatcache_summary(rec_off, out_off), uc.unsatcache_summary(rec_on, out_on)
-            on_summaries.append(s_on)
-            report_diffs(chk, case, uc.unsatcache_compare(s_off, s_on), "same process", s_off, s_on, rec_on, work)
-            # counterexamples of the cache-on run whose values differ from the cache-off run: still models?
-            for sig in s_on["order"]:
-                for pid, y in s_on["tests"][sig]["paths"].items():
-                    x = s_off["tests"].get(sig, {}).get("paths", {}).get(pid)
-                    if y["result"] != "sat":
-                        continue
-                    chk.count("counterexamples_compared")
-                    if x and x.get("values") == y["values"]:
-                        chk.count("counterexamples_identical")
-                        continue
-                    r = uc.unsatcache_model_holds(rec_on, y["q"], work / "oracle" / f"m{case.index}-{y['q']}.smt2")
-                    chk.count("counterexamples_revalidated")
-                    if r == "unsat":
-                        chk.violation(f"{case.key()}:{sig}:model-invalid",
-                                      f"{sig} path {pid}: the counterexample reported with --cache-solver does not satisfy the path's query",
-                                      replay_of(case, sig, {"path": pid, "model": y["values"]}))
-            tid = batch.add(rec_on, f"case{case.index}", {"case": case})
-            hits = sum(1 for e in rec_on.events if e["e"] == "check" and e["hit"])
-            cores = [len(e["ids"]) for e in rec_on.events if e["e"] == "core"]
-            nq = len(rec_on.qdata)
-            nunsat = sum(1 for q in rec_on.qdata.values() if q.get("truth") == "unsat")
-            chk.count("tests_run_pairs", case.ntests)
-            chk.count("queries", nq)
-            chk.count("queries_unsat", nunsat)
-            chk.count("cache_hits", hits)
-            chk.count("cores_stored", len(cores))
-            chk.count("gc_collections_forced", rec_on.gc_runs)
-            chk.count("evaluations", nq)
-            for k in cores:
-                shapes_seen.add(k)
-            tno = 0
-            for e in rec_on.events:  # non-trivial = tests in which a core was stored / a query was answered by the cache
-                if e["e"] == "test":
-                    tno += 1
-                elif e["e"] == "core":
-                    chk.nontrivial(("core", case.key(), tno))
-                elif e["e"] == "check" and e["hit"]:
-                    chk.nontrivial(("hit", case.key(), tno))
-            chk.sample({"case": case.index, "cli": case.cli, "inject": case.inject, "tests": [m.tree[:160] for m in metas],
-                        "queries": nq, "unsat": nunsat, "cores": cores, "hits": hits,
-                        "exit_codes": [r.exitcode for r in out_on.results]})
-        chk.cov["core_sizes_seen"] = sorted(shapes_seen)
-        chk.cov["programs"] = len(cases) * 3
+        results = {}
+        if nshards == 0:
+            for case in cases:
+                results[case.index] = uc.unsatcache_case(case, work, pool, reserialize=(case.index % 7 == 3))
+                chk.cov.setdefault("case_times_s", []).append([case.index] + results[case.index]["stats"]["times"])
 
-        # fresh-process baseline (cache off, nothing else ever ran in that process)
+        # mutants of the implementation (wrappers installed by the harness only); compared with this process' cache-off run
+        t_mut = time.time()
+        mutant_res = {}
+        for mutant, limit in (("drop_one_id", 4), ("store_subset", 4), ("nopin", 2 if tier == "quick" else 12)):
+            for case in cases[:limit]:
+                if mutant != "nopin" and case.cli[:2] != ("--solver-threads", "1"):
+                    continue
+                r = uc.unsatcache_case(case, work, pool, mutant=mutant, s_off=(results.get(case.index) or {}).get("s_off"))
+                mutant_res.setdefault(mutant, []).append(r)
+                chk.count("mutant_runs")
+                if mutant != "nopin" and any(d[1] != "inconclusive" for d in r["diffs"]):
+                    break  # the on/off differential already shows the broken cache
+        partial = {}
+        for mutant, cfg in (("nopin_futures", "MC_Trace_UnsatCache_termvars.cfg"), ("nopin_termvars", "MC_Trace_UnsatCache_futures.cfg")):
+            pb = uc.UnsatcacheBatch()
+            for case in cases[: (0 if tier == "quick" else 6)]:
+                r = uc.unsatcache_case(case, work, pool, mutant=mutant, with_off=False)
+                pb.add_built(r["trace"])
+                chk.count("mutant_runs")
+            partial[mutant] = (pb, cfg)
+
+        # collect the background work
         t_join = time.time()
         bg.join()
-        base = bg.results["baseline"]
-        for case, s_off, s_on in zip(cases[:nfresh], base, on_summaries):
-            report_diffs(chk, case, uc.unsatcache_compare(s_off, s_on), "fresh process", s_off, s_on, None, work)
+        for k in range(nshards):
+            for r in bg.results[f"shard{k}"]:
+                results[r["index"]] = r
+        if sorted(results) != [c.index for c in cases]:
+            raise MachineryError("some cases were not run")
+        tids = {}
+        for case in cases:
+            tids[case.index] = absorb(chk, case, results[case.index], batch)
+        chk.cov["core_sizes_seen"] = sorted(chk.cov.pop("_core_sizes", set()))
+        chk.cov["programs"] = len(cases) * 3
+        # fresh-process baseline (cache off; nothing else ever ran in those processes)
+        base = {}
+        for k in range(nb):
+            for case, s in zip(cases[:nfresh][k::nb], bg.results[f"baseline{k}"]):
+                base[case.index] = s
+        for case in cases[:nfresh]:
+            report_diffs(chk, case, uc.unsatcache_compare(base[case.index], results[case.index]["s_on"]), "fresh process",
+                         base[case.index], results[case.index]["s_on"])
             chk.count("tests_compared_with_fresh_process", case.ntests)
         model_check_verdicts(chk, tier, bg)
 
@@ -272,42 +296,15 @@ def run(chk: Check, tier: str):
                     break
             else:
                 raise MachineryError(f"no recorded log admits the control corruption {how!r} (no cache hit was recorded?)")
-
-        # mutants of the implementation (wrappers installed by the harness only)
-        mutant_tids = {}
-        mutant_diffs = {}
-        t_mut = time.time()
-        for mutant, limit in (("drop_one_id", 4), ("store_subset", 4), ("nopin", 2 if tier == "quick" else 12)):
-            for case, s_off_base in list(zip(cases, base))[:limit]:
-                if mutant != "nopin" and case.cli[:2] != ("--solver-threads", "1"):
-                    continue
-                rec_m, out_m, _ = uc.unsatcache_run(case, cache=True, dump=work / "dump", mutant=mutant)
-                uc.unsatcache_oracle(rec_m, work / "oracle", f"m{mutant}{case.index}", pool)
-                tid = batch.add(rec_m, f"{mutant}-case{case.index}", {"mutant": mutant})
-                mutant_tids.setdefault(mutant, []).append(tid)
-                d = [x for x in uc.unsatcache_compare(s_off_base, uc.unsatcache_summary(rec_m, out_m)) if x[1] != "inconclusive"]
-                mutant_diffs.setdefault(mutant, []).extend(d)
-                chk.count("mutant_runs")
-                if d and mutant != "nopin":
-                    break  # the on/off differential already shows the broken cache
-        partial = {}
-        for mutant, cfg in (("nopin_futures", "MC_Trace_UnsatCache_termvars.cfg"), ("nopin_termvars", "MC_Trace_UnsatCache_futures.cfg")):
-            pb = uc.UnsatcacheBatch()
-            for case in cases[: (0 if tier == "quick" else 6)]:
-                rec_m, out_m, _ = uc.unsatcache_run(case, cache=True, dump=work / "dump", mutant=mutant)
-                uc.unsatcache_oracle(rec_m, work / "oracle", f"m{mutant}{case.index}", pool)
-                pb.add(rec_m, f"{mutant}-case{case.index}")
-                chk.count("mutant_runs")
-            partial[mutant] = (pb, cfg)
+        mutant_tids = {m: [batch.add_built(r["trace"], {"mutant": m}) for r in rs] for m, rs in mutant_res.items()}
 
         # trace validation, one JVM for all logs
         t_val = time.time()
-        res, r = batch.validate(work)
+        res, r = batch.validate(work, workers=4 if tier == "quick" else 8)
         chk.add_tlc(r)
-        nreal = len(cases)
-        for tid in range(1, nreal + 1):
+        for case in cases:
+            tid = tids[case.index]
             v = res[tid]
-            case = cases[tid - 1]
             if v["ok"]:
                 chk.count("traces_validated_against_impl")
                 continue
@@ -325,10 +322,10 @@ def run(chk: Check, tier: str):
             if v["ok"] or v["why"] not in wanted[how]:
                 raise MachineryError(f"negative control {how}: corrupted log was {'accepted' if v['ok'] else 'rejected with ' + v['why']}")
             chk.count("negative_controls_rejected")
-        for mutant, tids in mutant_tids.items():
-            whys = [res[t]["why"] for t in tids if not res[t]["ok"]]
-            nd = len(mutant_diffs.get(mutant, []))
-            chk.cov.setdefault("mutants", {})[mutant] = {"runs": len(tids), "logs_rejected": whys, "differential_disagreements": nd}
+        for mutant, mt in mutant_tids.items():
+            whys = [res[t]["why"] for t in mt if not res[t]["ok"]]
+            nd = sum(1 for r_ in mutant_res[mutant] for d in r_["diffs"] if d[1] != "inconclusive")
+            chk.cov.setdefault("mutants", {})[mutant] = {"runs": len(mt), "logs_rejected": whys, "differential_disagreements": nd}
             if not whys and not nd:
                 raise MachineryError(f"negative control: the broken cache {mutant!r} was not noticed by trace validation nor by the differential")
             if mutant == "nopin" and not whys:
@@ -336,11 +333,10 @@ def run(chk: Check, tier: str):
             chk.count("negative_controls_rejected")
         if tier == "thorough":
             # how far do the runs without pins get?  (NoPin model: only clauses about stored cores and hits reject)
-            nb = uc.UnsatcacheBatch()
+            nbatch = uc.UnsatcacheBatch()
             for t in mutant_tids.get("nopin", []):
-                nb.traces.append(batch.traces[t - 1])
-            nb.family = batch.family
-            nres, nr = nb.validate(work, cfg="MC_Trace_UnsatCache_nopin.cfg")
+                nbatch.add_built(batch.traces[t - 1])
+            nres, nr = nbatch.validate(work, cfg="MC_Trace_UnsatCache_nopin.cfg")
             chk.add_tlc(nr)
             chk.cov["mutants"]["nopin"]["clauses_under_nopin_model"] = sorted(v["why"] for v in nres.values() if not v["ok"])
         for mutant, (pb, cfg) in partial.items():
@@ -354,13 +350,14 @@ def run(chk: Check, tier: str):
                 raise MachineryError(f"model fidelity: with only one reference released ({mutant}) the log is rejected by {cfg}: {badp}")
             chk.count("single_pin_runs_accepted", len(pres))
 
-        chk.cov["timing_s"] = {"paired_runs": round(t_join - t_pairs, 1), "wait_for_tlc_and_baseline": round(t_mut - t_join, 1),
-                               "mutant_runs": round(t_val - t_mut, 1), "trace_validation": round(time.time() - t_val, 1)}
+        chk.cov["timing_s"] = {"paired_runs_in_process": round(t_mut - t_pairs, 1), "mutant_runs": round(t_join - t_mut, 1),
+                               "wait_for_background": round(t_val - t_join, 1), "trace_validation": round(time.time() - t_val, 1)}
         chk.cov["rule"] = (
-            "contracts generated from correlated decision trees (atoms over small constants, mostly on one argument; Panic / ok / "
-            "revert leaves), run through the real run_contract with branching answers `unknown` injected (all / seeded half / none) "
-            "so that infeasible assertion paths reach the solver; cache off vs --cache-solver in the same process and vs a fresh "
-            "process; rotating --solver-threads 1/3/default and yices/z3; gc.collect() forced between paths and before every "
+            "contracts generated from correlated decision trees (atoms over small constants, mostly on one argument, contradictions "
+            "seeded near the root; Panic / ok / revert leaves), run through the real run_contract with branching answers `unknown` "
+            "injected (all / seeded half / none) so that infeasible assertion paths reach the solver; cache off vs --cache-solver in "
+            "the same process (many contracts in sequence) and vs fresh processes; rotating --solver-threads 1/3/default, yices/z3, "
+            "multiplication atoms (refinement) in the thorough tier; gc.collect() forced between paths and before every "
             "serialisation; every recorded log validated by TLC against Trace_UnsatCache (faithful pinning model) with the query's "
             "own cache-off solver run as oracle; non-trivial = tests in which a core was stored or a query was answered by the cache"
         )
@@ -379,28 +376,30 @@ def run(chk: Check, tier: str):
 def replay(chk: Check, path: str):
     d = json.loads(Path(path).read_text())
     if "case" not in d:
-        out = d.get("output")
         import halmos.solve as hsolve
 
-        print("parse_unsat_core ->", hsolve.parse_unsat_core(out), "expected", d.get("expected"))
+        got = hsolve.parse_unsat_core(d.get("output"))
+        print("parse_unsat_core ->", got, "expected", d.get("expected"))
+        if got != d.get("expected"):
+            chk.violation(d.get("key", "parse_unsat_core:replay"), f"parse_unsat_core returned {got!r}", d)
         return
     c = d["case"]
     case = uc.UcCase(seed=c["seed"], index=c["index"], ntests=c["ntests"], depth=tuple(c["depth"]), hard=c["hard"],
                      cli=tuple(c["cli"]), inject=c["inject"])
     work = workdir("c16r")
     pool = ThreadPoolExecutor(4)
+    uc.unsatcache_tune_allocator()
     try:
-        rec_off, out_off, metas = uc.unsatcache_run(case, cache=False, dump=work / "dump")
-        rec_on, out_on, _ = uc.unsatcache_run(case, cache=True, dump=work / "dump")
-        uc.unsatcache_oracle(rec_on, work / "oracle", "r", pool)
-        s_off, s_on = uc.unsatcache_summary(rec_off, out_off), uc.unsatcache_summary(rec_on, out_on)
-        report_diffs(chk, case, uc.unsatcache_compare(s_off, s_on), "same process", s_off, s_on, rec_on, work)
+        res = uc.unsatcache_case(case, work, pool)
         batch = uc.UnsatcacheBatch()
-        batch.add(rec_on, "replay")
-        res, r = batch.validate(work)
-        print("trace:", res[1])
-        if not res[1]["ok"] and res[1]["why"] in VIOLATION_CLAUSES:
-            chk.violation(f"{case.key()}:trace:{res[1]['why']}", f"log rejected: {res[1]}", replay_of(case))
+        tid = absorb(chk, case, res, batch)
+        vres, r = batch.validate(work)
+        chk.add_tlc(r)
+        print("differences:", res["diffs"], "trace:", vres[tid])
+        if vres[tid]["ok"]:
+            chk.count("traces_validated_against_impl")
+        elif vres[tid]["why"] in VIOLATION_CLAUSES:
+            chk.violation(f"{case.key()}:trace:{vres[tid]['why']}", f"log rejected: {vres[tid]}", replay_of(case))
     finally:
         pool.shutdown(wait=False)
         cleanup(work)
